@@ -13,7 +13,7 @@ META = {
                    'free); (I) under fresh symbolic SVD outputs every processed core is entry-for-entry reshape(U) resp. reshape(Vh) of '
                    'an SVD whose argument equals the unfolding of the carried factor times the core (so the SVD contract U^H U = I '
                    'makes it an isometry), untouched cores are term-identical to the input; (S) ranks never grow and order/dims/ranks '
-                   'match the core shapes. Trains with mixed dtypes per core (real start core, complex later core) are part of the grid; a per-bond cap list that does not bind gives the result of no cap and is left unchanged.',
+                   'match the core shapes. Trains with mixed dtypes per core (real start core, complex later core) are part of the grid; a per-bond cap list that does not bind gives the result of no cap and is left unchanged. NOT solver-decided, sampled by the validation run (scenario badly_scaled): cores of size 1e-20 next to cores of size 1e+20 and tensors of size 1e-19 -- value preserved to relative accuracy, isometries.',
     'bounds': {'quick': 'orders 1-4, mode sizes {1,2}, inner ranks {1,2,3} (rank-deficient/over-parameterised cores included: all values, '
                         'ranks above the mode product), operators and vectors, real and complex; all (start,end)',
                'thorough': 'same grid, larger subset, plus mode size 3'},
